@@ -115,17 +115,21 @@ class PLock:
 
 
 class TickClock:
-    """`time` as seen by cassandra.pool: every reading advances the virtual clock a little, so that the
-    spin in borrow_connection (a retired connection that is still the current one) ends as it does in
-    real time."""
+    """`time` as seen by cassandra.pool: a per-thread virtual time that advances a little with every reading.
+    The spin in borrow_connection (a retired connection that is still the current one) then ends as it does
+    in real time, and a borrow suspended between pick and take does not time out because *other* threads
+    were scheduled meanwhile (the specification has no borrow timeout between the two steps)."""
 
     def __init__(self, clock, tick=0.5):
-        self._clock, self._tick = clock, tick
+        self._clock, self._tick, self._base = clock, tick, clock.now
+        self._reads = {}
 
     def time(self):
-        t = self._clock.now
-        self._clock.now += self._tick
-        return t
+        s = DetSched.current
+        key = s.active.name if s is not None and s.active is not None else None
+        n = self._reads.get(key, 0)
+        self._reads[key] = n + 1
+        return self._base + n * self._tick
 
     def __getattr__(self, name):
         return getattr(self._clock, name)
@@ -172,8 +176,11 @@ class PoolHarness:
         orig_factory = self.cluster.connection_factory
 
         def factory(endpoint, *a, **kw):
+            mine = kw.get("on_orphaned_stream_released") is not None
+            if mine:
+                self.sched.yield_point("opening")
             conn = orig_factory(endpoint, *a, **kw)
-            if kw.get("on_orphaned_stream_released") is not None:
+            if mine:
                 self._adopt(conn)
                 self.sched.yield_point("opened")
             return conn
@@ -317,7 +324,7 @@ class PoolHarness:
         old = tasks[0].args[0] if tasks[0].args else None
         self.told = self.conns.index(old) + 1 if old in self.conns else 0
         self.sched.spawn(self.tname, self.cluster.executor.run, tasks[0])
-        lab = self._run(self.tname, lambda l: l == "rel:pool@_replace")
+        lab = self._run(self.tname, lambda l: l == "opening")        # past the is_shutdown check, about to connect
         self.tphase = None if lab == "end" else "open"
 
     def _tphase(self, want):
@@ -623,7 +630,7 @@ def _post(p, reqs, n):
     }
 
 
-def record(constants, rng, max_events=60, p_fail=0.05, p_shutdown=0.04):
+def record(constants, rng, max_events=60, p_fail=0.08, p_shutdown=0.08):
     """Drive the real objects with random operations the harness can perform; return the list of events
     (operation, arguments, projected post-state)."""
     reqs = sorted(constants["Reqs"])
@@ -631,16 +638,19 @@ def record(constants, rng, max_events=60, p_fail=0.05, p_shutdown=0.04):
     h = PoolHarness(constants)
     events = []
     fails = cfails = 0
+    staggered = rng.random() < 0.6       # mostly one request at a time: timeouts pile up before the next borrow
     try:
         while len(events) < max_events:
             ops = []
+            busy = any(st in ("picked", "borrowed", "sent") for st in h.project()["st"].values())
             for r in reqs:
                 t = h.sched.threads.get("C%d" % r)
                 f = h.futures.get(r)
                 if r not in h.started:
-                    ops.append({"e": "BorrowStart", "r": r})
+                    if not (staggered and busy and rng.random() < 0.85):
+                        ops += [{"e": "BorrowStart", "r": r}] * 2
                 elif not t.done and r not in h.took:
-                    ops.append({"e": "BorrowTake", "r": r})
+                    ops += [{"e": "BorrowTake", "r": r}] * 2
                 elif not t.done:
                     c = h.conns[h.took[r] - 1]
                     if not c.is_closed:
@@ -649,14 +659,14 @@ def record(constants, rng, max_events=60, p_fail=0.05, p_shutdown=0.04):
                         down = bool(h.pool.is_shutdown)
                     else:
                         down = rng.random() < 0.5
-                    ops.append({"e": "Send", "r": r, "f": down})
+                    ops += [{"e": "Send", "r": r, "f": down}] * 2
                 elif f is not None and f._final_exception is None and f._final_result is cassandra.cluster._NOT_SET \
                         and f._timer is not None and not f._timer.canceled:
-                    ops.append({"e": "Timeout", "r": r})
+                    ops += [{"e": "Timeout", "r": r}] * 3
             for p in h.node.pending:
                 if p.conn in h.conns and not p.conn.is_closed and p.req.get("op") == "QUERY":
                     op = {"e": "Respond", "c": h.conns.index(p.conn) + 1, "r": int(p.req["query"].split()[1])}
-                    ops += [op, op]
+                    ops.append(op)
             if cfails < constants["MaxConnFails"] and rng.random() < p_fail:
                 for i, c in enumerate(h.conns, 1):
                     if not c.is_closed and not (h.tphase == "publish" and i == len(h.conns)):
@@ -668,22 +678,22 @@ def record(constants, rng, max_events=60, p_fail=0.05, p_shutdown=0.04):
                             down = rng.random() < 0.5
                         ops.append({"e": "ConnFails", "c": i, "f": down})
             if h.tphase is None and h.replace_tasks():
-                ops += [{"e": "ReplaceCheck"}] * 2
+                ops += [{"e": "ReplaceCheck"}] * 3
             elif h.tphase == "open":
                 if len(h.conns) < n:
-                    ops += [{"e": "ReplaceOpen", "f": True}] * 2
+                    ops += [{"e": "ReplaceOpen", "f": True}] * 3
                 if fails < constants["MaxFails"]:
                     ops.append({"e": "ReplaceOpen", "f": False})
             elif h.tphase == "publish":
-                ops += [{"e": "ReplacePublish"}] * 2
+                ops += [{"e": "ReplacePublish"}] * 3
             elif h.tphase == "retire":
-                ops += [{"e": "ReplaceRetire"}] * 2
+                ops += [{"e": "ReplaceRetire"}] * 3
             if h.sphase == "none" and not h.pool.is_shutdown and rng.random() < p_shutdown:
                 ops.append({"e": "ShutdownMark"})
             elif h.sphase == "marked":
-                ops.append({"e": "ShutdownCloseCur"})
+                ops += [{"e": "ShutdownCloseCur"}] * 2
             elif h.sphase == "curclosed":
-                ops.append({"e": "ShutdownCloseTrash"})
+                ops += [{"e": "ShutdownCloseTrash"}] * 2
             if not ops:
                 break
             ev = dict(rng.choice(ops))
